@@ -218,51 +218,58 @@ CURSOR_NEUTRAL = {"open", "open_before", "close", "close_root", "mark", "error",
 
 
 class Interp:
+    """Abstract interpretation of emitted bodies.  A state is (prog, tok):
+         prog  'N' no token consumed since the function was entered (tok = the entry token)
+               'P' at least one token consumed
+               'U' unknown
+         tok   the current token if it is known, else None
+    Results are memoised per (statement, state)."""
+
+    FLOWS = ("next", "break", "continue", "return")
+
     def __init__(self, alphabet, fns, entries=()):
         """fns: name -> body (list of stmts); names are 'rule_x' and 'rule_x::rec'.
         entries: functions called from outside (parse, parse_<part>, external functions)."""
-        self.alphabet = alphabet
+        self.alphabet = list(alphabet)
         self.fns = fns
         self.ALL = set(alphabet)
         self.C = {f: (set(alphabet) if f in entries else set()) for f in fns}   # possible current tokens at entry
-        self.Ccalls = {}
-        self.loop_entry = {}    # id(loop) -> (set of tokens entering without progress, entered with unknown progress?)
         self.P = {f: set() for f in fns}
         self.N = {f: set() for f in fns}
-        self.known_external = {}
+        self.Ccalls = {}
         self.edges = set()
+        self.loop_entry = {}    # id(loop) -> [tokens entering without progress, entered with unknown progress?]
+        self.loops = {}         # id(loop) -> {tok: set(exit states)}
         self.cur_fn = None
-        self.loops = {}     # id(loop node) -> {tok: set(exit states)}
         self.record = False
-        self.loop_pass = False
+        self.memo = {}
 
-    def callee_outcome(self, callee, state, t):
+    # -- helpers
+    def callee_outcome(self, callee, state):
+        prog, tok = state
         if self.record and callee in self.fns:
-            if state == "N":
-                self.Ccalls.setdefault(callee, set()).add(t)
+            if tok is not None:
+                self.Ccalls.setdefault(callee, set()).add(tok)
             else:
                 self.Ccalls[callee] = set(self.ALL)
-        if state == "P":
-            return "P"
-        if state == "N":
-            if self.record:
+            if prog != "P":
                 self.edges.add((self.cur_fn, callee))
-            if callee in self.P and t in self.P[callee]:
-                return "P"
-            if callee in self.N and t in self.N[callee]:
-                return "N"
-            return "U"
-        if self.record:
-            self.edges.add((self.cur_fn, callee))
-        return "U"
+        if tok is not None:
+            if tok in self.P.get(callee, ()):
+                return ("P", None)
+            if tok in self.N.get(callee, ()):
+                return state
+        if prog == "P":
+            return ("P", None)
+        return ("U", None)
 
-    def seq(self, stmts, state, t):
-        res = {"next": set(), "break": set(), "continue": set(), "return": set()}
+    def seq(self, stmts, state):
+        res = {fl: set() for fl in self.FLOWS}
         states = {state}
         for s in stmts:
             nxt = set()
             for sx in states:
-                r = self.stmt(s, sx, t)
+                r = self.stmt(s, sx)
                 nxt |= r.get("next", set())
                 for fl in ("break", "continue", "return"):
                     res[fl] |= r.get(fl, set())
@@ -272,68 +279,72 @@ class Interp:
         res["next"] = states
         return res
 
-    def stmt(self, s, state, t):
+    def stmt(self, s, state):
+        key = (id(s), state, self.record)
+        if key in self.memo:
+            return self.memo[key]
+        r = self.stmt1(s, state)
+        self.memo[key] = r
+        return r
+
+    def stmt1(self, s, state):
+        prog, tok = state
         k = s.kind
         if k == "expect":
-            if state == "N":
-                r = {"next": {"P" if s.tok == t else "N"}}
+            if tok is not None:
+                r = {"next": {("P", None) if s.tok == tok else state}}
+            elif prog == "P":
+                r = {"next": {("P", None)}}
             else:
-                r = {"next": {state}}
+                r = {"next": {("P", None), ("U", None)}}
             if s.try_:
                 r["return"] = {state}
             return r
         if k == "call":
             m = s.method
             if m in ("advance", "advance_with_error"):
-                return {"next": {"P"}}
+                return {"next": {("P", None)}}
             if m.startswith("rule_"):
-                return {"next": {self.callee_outcome(m, state, t)}}
+                return {"next": {self.callee_outcome(m, state)}}
             if m in CURSOR_NEUTRAL or m.startswith(("create_node_", "action_", "predicate_", "assertion_", "delete_node_")):
                 return {"next": {state}}
-            if m == "set_state":
-                return {"next": {"U" if state != "P" else "U"}}
-            return {"next": {"U" if state == "N" else state}}
+            return {"next": {("P", None) if prog == "P" else ("U", None)}}
         if k == "rec":
-            return {"next": {self.callee_outcome(self.cur_fn.split("::")[0] + "::rec", state, t)}}
+            return {"next": {self.callee_outcome(self.cur_fn.split("::")[0] + "::rec", state)}}
         if k in ("assign", "pure", "fieldwrite"):
             return {"next": {state}}
-        if k == "break":
-            return {"break": {state}}
-        if k == "continue":
-            return {"continue": {state}}
-        if k == "return":
-            return {"return": {state}}
+        if k in ("break", "continue", "return"):
+            return {k: {state}}
         if k == "if":
-            r1 = self.seq(s.then, state, t)
-            r2 = self.seq(s.els, state, t) if s.els is not None else {"next": {state}}
-            out = {}
-            for fl in ("next", "break", "continue", "return"):
-                out[fl] = r1.get(fl, set()) | r2.get(fl, set())
-            return out
+            r1 = self.seq(s.then, state)
+            r2 = self.seq(s.els, state) if s.els is not None else {"next": {state}}
+            return {fl: r1.get(fl, set()) | r2.get(fl, set()) for fl in self.FLOWS}
         if k == "match":
-            out = {"next": set(), "break": set(), "continue": set(), "return": set()}
-            arms = []
-            if s.recv is not None and state == "N":
+            out = {fl: set() for fl in self.FLOWS}
+            if s.recv is None:
                 for a in s.arms:
-                    hit = a.wild or (t in a.toks)
-                    if not hit:
+                    r = self.seq(a.body, state)
+                    for fl in out:
+                        out[fl] |= r.get(fl, set())
+                return out
+            toks = [tok] if tok is not None else self.alphabet
+            for t2 in toks:
+                st2 = (prog, t2)
+                for a in s.arms:
+                    if not (a.wild or (t2 in a.toks)):
                         continue
-                    arms.append(a)
+                    r = self.seq(a.body, st2)
+                    for fl in out:
+                        out[fl] |= r.get(fl, set())
                     if a.guard is None or a.guard == "true":
                         break
-            else:
-                arms = s.arms
-            for a in arms:
-                r = self.seq(a.body, state, t)
-                for fl in out:
-                    out[fl] |= r.get(fl, set())
             return out
         if k == "loop":
             if self.record:
                 e = self.loop_entry.setdefault(id(s), [set(), False])
-                if state == "N":
-                    e[0].add(t)
-                elif state == "U":
+                if prog == "N":
+                    e[0].add(tok)
+                elif prog == "U":
                     e[1] = True
             exits, rets = set(), set()
             seen = set()
@@ -343,16 +354,14 @@ class Interp:
                 if sx in seen:
                     continue
                 seen.add(sx)
-                r = self.seq(s.body, sx, t)
+                r = self.seq(s.body, sx)
                 exits |= r["break"]
                 rets |= r["return"]
                 for s2 in r["next"] | r["continue"]:
-                    work.append("P" if s2 == "P" else "U")
-            if state == "N" and self.loop_pass:
-                self.loops.setdefault(id(s), {})[t] = set(exits)
+                    work.append(("P", None) if s2[0] == "P" else ("U", None))
             return {"next": exits, "return": rets}
         # other
-        return {"next": {"U" if state == "N" else state}}
+        return {"next": {("P", None) if prog == "P" else ("U", None)}}
 
     def run(self):
         changed = True
@@ -363,26 +372,24 @@ class Interp:
             self.edges = set()
             self.Ccalls = {}
             self.loop_entry = {}
+            self.memo = {}
             for f, body in self.fns.items():
                 self.cur_fn = f
                 P, N = set(), set()
                 for t in self.alphabet:
                     self.record = t in self.C[f]
-                    r = self.seq(body, "N", t)
+                    r = self.seq(body, ("N", t))
                     outs = r["next"] | r["return"]
-                    if outs == {"P"}:
+                    if outs and all(o[0] == "P" for o in outs):
                         P.add(t)
-                    elif outs == {"N"}:
+                    elif outs == {("N", t)}:
                         N.add(t)
                 self.record = False
+                P |= self.P[f]
+                N |= self.N[f]
                 if P != self.P[f] or N != self.N[f]:
-                    # monotone: only grow
-                    if not (self.P[f] <= P and self.N[f] <= N):
-                        P |= self.P[f]
-                        N |= self.N[f]
-                    if P != self.P[f] or N != self.N[f]:
-                        self.P[f], self.N[f] = P, N
-                        changed = True
+                    self.P[f], self.N[f] = P, N
+                    changed = True
             for f, c in self.Ccalls.items():
                 if not c <= self.C[f]:
                     self.C[f] |= c
@@ -391,7 +398,7 @@ class Interp:
                 break
         # per-loop exit behaviour, from a fresh "no progress yet" state for every token
         self.record = False
-        self.loop_pass = True
+        self.memo = {}
         self.loops = {}
 
         def all_loops(stmts, acc):
@@ -411,12 +418,17 @@ class Interp:
             acc = []
             all_loops(body, acc)
             for lp in acc:
+                d = {}
                 for t in self.alphabet:
-                    saved = dict(self.loops.get(id(lp), {}))
-                    self.stmt(lp, "N", t)
-                    # nested loops get overwritten with the same values; keep this loop's entry
-                    _ = saved
-        self.loop_pass = False
+                    r = self.stmt(lp, ("N", t))
+                    ex = r["next"]
+                    if ex and all(o[0] == "P" for o in ex):
+                        d[t] = {"P"}
+                    elif ex == {("N", t)}:
+                        d[t] = {"N"}
+                    else:
+                        d[t] = {"U"}
+                self.loops[id(lp)] = d
         return rounds
 
     def ranks(self):
